@@ -192,6 +192,10 @@ def rule_shadowing(ctx):
         tl_ = block_tail(ad["body"])
         oka = len(pva) == 3 and sgrep.has(ad["body"], "self.declarations.add_variable(__n, Declaration::new(__f, __l))", sgrep.lets(ad["body"]), {"__n": pva[0], "__f": pva[1], "__l": pva[2]}) and tl_ is not None and sgrep.match(sgrep.pattern("self.get_next_version(__n)"), tl_, {"__n": pva[0]})
         ctx.check(R, "DeclarationEnvironment::add_declaration/records-and-versions", oka, t[:200], site(UV, ad))
+        # the innermost declaration replaces what was visible: recorded on every call, whatever is already there
+        recs = [m_ for m_ in method_calls(ad["body"], "add_variable") if "declarations" in render(m_["recv"])]
+        cs_ = facts_str(conditions_to(ad["body"], recs[0]) or []) if len(recs) == 1 else ["?"]
+        ctx.check(R, "DeclarationEnvironment::add_declaration/recorded-unconditionally", len(recs) == 1 and not cs_, "declarations.add_variable under %s: an inner redeclaration would be reported against (and resolve to) an outer declaration" % cs_, site(UV, ad))
     gd = find_fn(UV, "get_declaration", "DeclarationEnvironment")
     if gd is not None:
         t = render(gd["body"]).replace(" ", "")
@@ -210,6 +214,12 @@ def rule_shadowing(ctx):
         pvn_ = sgrep.params(gn)
         okgs = bool(pvn_) and sgrep.has(gn["body"], "self.global_versions.add_variable(__n, __v)", None, {"__n": pvn_[0]}) and sgrep.has(gn["body"], "self.scoped_versions.add_variable(__n, __w)", None, {"__n": pvn_[0]})
         ctx.check(R, "DeclarationEnvironment::get_next_version/global-then-scoped", okgs, "", site(UV, gn))
+        # the scoped version is *added to the current block* (so that it disappears with the block), exactly when there is one
+        sc = [m_ for m_ in method_calls(gn["body"], "add_variable") if "scoped_versions" in render(m_["recv"])]
+        inplace = [render(m_)[:60] for m_ in walk(gn["body"]) if m_["k"] == "MethodCall" and m_["method"] in ("get_mut_variable", "get_mut", "insert", "entry") and "scoped_versions" in render(m_["recv"])]
+        conds_ = (conditions_to(gn["body"], sc[0]) or []) if len(sc) == 1 else None
+        only_some = conds_ is not None and len(conds_) == 1 and ((conds_[0][0] == "iflet" and conds_[0][3] and render(conds_[0][1]).replace(" ", "").startswith("Some(")) or (conds_[0][0] == "arm" and render(conds_[0][2]).replace(" ", "").startswith("Some(")))
+        ctx.check(R, "DeclarationEnvironment::get_next_version/scoped-version-added-to-the-current-block", bool(only_some) and not inplace, "scoped add under %s; in-place updates of outer scopes: %s" % (facts_str(conds_) if conds_ is not None else "?", inplace), site(UV, gn))
     # parameters
     tf = None
     for q, f in fns_in_file(UV):
@@ -272,4 +282,7 @@ def run(ctx):
     rule_separator(ctx)
     rule_shadowing(ctx)
     rule_for_scope(ctx)
+    import c03
+
+    ctx.include("C10.7", "every shadowing warning produced while the CFG is built reaches the display: the per-definition cache takes every report, is drained after it was filled and written unconditionally (shared with C03.1)", c03.rule_drain)
     ctx.include("C10.6", "SSA keeps same-named variables apart: phi statements are matched by the full (name, suffix) identity and only locals are versioned (shared with C14.3)", c14.rule_phis_and_locals)
